@@ -81,12 +81,12 @@ func (v *VMValue) ArrayFuncKeepBase(ctx *Context, pickNum IntType, orderType int
 		sort.Slice(nums, func(i, j int) bool { return nums[i] < nums[j] }) // 从小到大
 	}
 
+	// 取数大于上限时只取到上限，避免 pickNum 极大时空转
+	if pickNum > IntType(len(nums)) {
+		pickNum = IntType(len(nums))
+	}
 	num := float64(0)
 	for i := IntType(0); i < pickNum; i++ {
-		// 当取数大于上限 跳过
-		if i >= IntType(len(nums)) {
-			continue
-		}
 		num += nums[i]
 	}
 
